@@ -302,7 +302,10 @@ func (d *duplexHTTPCall) makeRequest() {
 	response, err := d.httpClient.Do(d.request)
 	verifYield("do.after")
 	if err != nil {
-		err = wrapIfContextError(err)
+		// If the context has ended, that's why the request failed, whatever the
+		// transport reports (it may hand us the context's cause rather than
+		// context.Canceled or context.DeadlineExceeded).
+		err = wrapIfContextDone(d.ctx, err)
 		err = wrapIfLikelyH2CNotConfiguredError(d.request, err)
 		err = wrapIfLikelyWithGRPCNotUsedError(err)
 		err = wrapIfRSTError(err)
